@@ -70,8 +70,8 @@ def matchStr (buf : List Sym) : List Sym → Nat → Option (Option Nat)
     | some x => if x ≠ c then some none else matchStr buf cs (i + 1)
 
 /-- First case whose key list contains `c`; the default has index `keys.length`. -/
-def caseIndex (keys : List (List Sym)) (c : Sym) : Nat :=
-  match keys.findIdx? (fun ks => ks.contains c) with
+def caseIndex (keys : List (List (Nat × Nat))) (c : Sym) : Nat :=
+  match keys.findIdx? (fun ks => ks.any (fun r => decide (r.1 ≤ c) && decide (c ≤ r.2))) with
   | some i => i
   | none => keys.length
 
